@@ -24,7 +24,7 @@ units = [
          flavours={"quick": ["asan-cc"], "thorough": ["asan-cc", "asan-nocc", "plain-cc"]}, shards={"quick": 4, "thorough": 8}),
 ]
 # call logs: (part, nslice)
-for part, nslice, label in ((0, 2, "invoke"), (1, 1, "function_ref"), (2, 1, "inplace_function"), (3, 2, "bind_not"), (4, 1, "refwrap"), (5, 1, "memptr")):
+for part, nslice, label in ((0, 2, "invoke"), (1, 1, "function_ref"), (2, 1, "inplace_function"), (3, 2, "bind_not"), (4, 1, "refwrap"), (5, 1, "memptr"), (6, 1, "addressof")):
     for sl in range(nslice):
         nm = f"C20_calls_{label}" + (f"_{sl}" if nslice > 1 else "")
         units.append(Unit(nm, "harness/C20_calls.cpp", defs=[f"-DVF_PART={part}", f"-DVF_NSLICE={nslice}", f"-DVF_SLICE={sl}"],
@@ -43,6 +43,10 @@ P = dict(
     level_text=("Differential runtime monitoring against libstdc++ and against a direct call: (1) every ordered pair of 3-tuples over {0,1,2} is pushed through "
                 "every constructor / assignment / relation / swap / get / apply / make_from_tuple / tuple_cat / make_tuple / tie / forward_as_tuple form of "
                 "etl::pair and etl::tuple with int, mixed arithmetic, copy-only, move-only, special-member-logging elements and elements with their own namespace-scope (ADL) swap, and compared with std::pair / "
+                "std::tuple; every relation both libraries provide and every converting construction/assignment is also run on pairs/tuples whose element types DIFFER "
+                "(int/double, unsigned char/int, long long/int, int/unsigned, signed/unsigned char, float/double, long long/double, short/unsigned long long, class/int; "
+                "both operand orders) over a value table with values not representable in the other type; a target/element class with a hostile unary operator& goes "
+                "through every wrapper that stores or forms an address (identity by std::addressof); all compared with std::pair / "
                 "std::tuple (values, element copy/move counts, order of ==); (2) ~150 probe cells compare decltype(etl expression) with decltype(std expression) "
                 "for get / structured bindings / apply / make_from_tuple / tuple_cat / forward_as_tuple / tie over element kinds {int, int const, move-only, "
                 "copy-only, int&, int&&, int const&} x {lvalue, const lvalue, rvalue, const rvalue}, each cell its own binary so a cell that does not compile is "
